@@ -2,19 +2,19 @@
 """Writes MANIFEST.json (run from /verif). Texts are per property; commands are uniform."""
 import json
 props = {
- "C01": ("sim", "trace invariants + trace-guided refinement against a reference runtime over generated programs x shell schedules x hosts", "§7 C01, §4"),
+ "C01": ("sim", "property-based testing (proptest): generated programs x shell schedules x hosts; model-free trace invariants (hand-over exactly once, delivery, event order) + trace-guided refinement against a reference runtime", "§7 C01, §4, §14.2"),
  "C02": ("sim", "generated histories with repeated / late / notification / ended-stream resolutions on typed and serialized paths; results and receivers compared with the reference", "§7 C02"),
  "C03": ("sim", "re-entrancy flag + applied-event log vs reference; per-emitter order; every emitted event applied before the call returns", "§7 C03"),
  "C04": ("sim", "combinator expressions judged by trace-guided refinement, direct host", "§7 C04"),
- "C05": ("sim", "deeply wrapped programs on five hosts against one reference; no task runnable when a call returns", "§7 C05"),
+ "C05": ("sim", "property-based testing: deeply wrapped programs on six hosts (direct, stream-polled, Core command API, Core legacy API, bincode bridge, JSON bridge) against one reference; plus reference-free lock-step comparison of the hosts' observations", "§7 C05, §14.2"),
  "C06": ("sim", "aborts / drops at generated points, late resolutions afterwards; reference rules: aborted work may be dropped, must never be polled", "§7 C06"),
  "C07": ("sim", "is_done and discarded/kept tasks vs reference after every action", "§7 C07"),
- "C08": ("sim", "harness-owned thread schedules through crux_core's verif points; per-phase obligations of the guided refinement", "§5, §7 C08"),
+ "C08": ("sim", "property-based testing over harness-owned thread schedules (generated choice lists through crux_core's verif schedule points, incl. points inside the app's view/update); per-phase obligations of the guided refinement", "§5, §7 C08, §14.2"),
  "C09": ("sim", "bincode and JSON bridges: decoded requests, ids, view vs reference", "§7 C09"),
  "C10": ("wire", "schema-driven codec + schema-valid value generator against bincode/serde of the real types, both directions", "§6, §7 C10"),
  "C11": ("data", "replays on fresh threads and in fresh processes compared byte for byte; equality of independently built values", "§7 C11"),
- "C12": ("sim", "mutated / random bytes at generated points of generated histories; catch_unwind + counting allocator + typed twin", "§7 C12"),
- "C13": ("sim", "long cyclic histories; drop counters on task futures; executor / registry occupancy through hooks", "§7 C13"),
+ "C12": ("sim", "property-based testing (mutated / random bytes at generated points of generated histories; catch_unwind + counting allocator + abort handler + typed twin) and, in the thorough tier, coverage-guided fuzzing (libFuzzer target bridge_bytes with the same oracle inside)", "§7 C12, §14.2"),
+ "C13": ("sim", "property-based testing: long cyclic histories; drop counters on task futures; executor / registry occupancy through hooks; timer set/clear cycles through both time APIs with the cleared-id set watched through a hook", "§7 C13, §14.2"),
  "C14": ("data", "generated request descriptions through both APIs vs an independent description of the wire request", "§7 C14"),
  "C15": ("data", "generated shell answers (any status, headers, body, errors) vs classification by status class, encoding_rs and serde_json references", "§7 C15"),
  "C16": ("data", "generated middleware stacks and served redirect graphs vs a reference written from the statement", "§7 C16"),
@@ -54,7 +54,7 @@ manifest = {
     ],
     "checks": checks,
     "not_applicable": [],
-    "notes": "Known findings are listed in /verif/known_findings.txt; see DESIGN.md §13.",
+    "notes": "Known findings (recorded, not repaired) and fixed findings (repaired by fix: commits in /repo) are listed in /verif/known_findings.txt; DESIGN.md §14 is the build-phase record; seeded/ holds 80 independently written breaking changes with RESULTS.md (which check reports which).",
 }
 json.dump(manifest, open("MANIFEST.json", "w"), indent=1)
 print("written", len(checks), "checks")
